@@ -841,3 +841,100 @@ func c11r8(rc *core.RC) {
 		rc.Unknown("vm/map-scratch-assignments", token.NoPos, "found %d assignments to MapContext.Buf in the interpreters (confirmed: 4)", n)
 	}
 }
+
+// ---- C11.R9 option functions are applied to a fresh option word, and are applied at all ----
+
+// The decode entry points take option functions (DecodeFieldPriorityFirstWin, …) and apply them to an Option that
+// lives longer than the call: the one of a pooled RuntimeContext, or the one of a Decoder's Stream. Two obligations.
+// Every loop that applies the caller's option functions to such an Option is preceded, in the same function, by the
+// assignment of the zero Option to it (`*X = decoder.Option{}`): otherwise an option given to one call is in force
+// for every later call on the same Decoder (DecodeWithOption(FirstWin), then a plain Decode that keeps the first of
+// two members). And every function of package json with a variadic parameter of option functions uses it, in such a
+// loop or by handing it on (f(…, optFuncs...)): UnmarshalContext took options and dropped them.
+func c11r9(rc *core.RC) {
+	p := rc.P
+	jp := p.Pkg("json")
+	if jp == nil {
+		rc.Unknown("json", token.NoPos, "package not found")
+		return
+	}
+	info := jp.TypesInfo
+	nLoops, nParams := 0, 0
+	for _, fd := range p.Funcs("json") {
+		if fd.Body == nil {
+			continue
+		}
+		name := p.FuncName(fd)
+		// the variadic parameter of decode option functions
+		var opts types.Object
+		if fd.Type.Params != nil {
+			for _, f := range fd.Type.Params.List {
+				if _, isVar := f.Type.(*ast.Ellipsis); !isVar || len(f.Names) != 1 {
+					continue
+				}
+				o := info.Defs[f.Names[0]]
+				if o == nil {
+					continue
+				}
+				if sl, ok := o.Type().Underlying().(*types.Slice); ok && strings.HasSuffix(sl.Elem().String(), "DecodeOptionFunc") {
+					opts = o
+				}
+			}
+		}
+		if opts == nil {
+			continue
+		}
+		nParams++
+		rc.Touch(name)
+		used := false
+		ast.Inspect(fd.Body, func(m ast.Node) bool {
+			if id, ok := m.(*ast.Ident); ok && core.ObjOf(info, id) == opts {
+				used = true
+			}
+			return true
+		})
+		rc.Check(used, name+"/option-functions-used", fd.Pos(), "%s takes option functions and neither applies them nor hands them on: the options of the caller have no effect (UnmarshalContext with DecodeFieldPriorityFirstWin decoded like a call without it)", name)
+		// loops that apply them
+		k := 0
+		ast.Inspect(fd.Body, func(m ast.Node) bool {
+			rs, ok := m.(*ast.RangeStmt)
+			if !ok || core.ObjOf(info, rs.X) != opts || rs.Value == nil {
+				return true
+			}
+			fobj := core.ObjOf(info, rs.Value)
+			var target ast.Expr
+			ast.Inspect(rs.Body, func(x ast.Node) bool {
+				if c, ok := x.(*ast.CallExpr); ok && len(c.Args) == 1 && core.ObjOf(info, c.Fun) == fobj {
+					target = c.Args[0]
+				}
+				return true
+			})
+			if target == nil {
+				return true
+			}
+			k++
+			nLoops++
+			tgt := types.ExprString(core.Unparen(target))
+			reset := false
+			ast.Inspect(fd.Body, func(x ast.Node) bool {
+				as, ok := x.(*ast.AssignStmt)
+				if !ok || as.Pos() > rs.Pos() || len(as.Lhs) != 1 || len(as.Rhs) != 1 {
+					return true
+				}
+				st, ok := core.Unparen(as.Lhs[0]).(*ast.StarExpr)
+				if !ok || types.ExprString(core.Unparen(st.X)) != tgt {
+					return true
+				}
+				if cl, ok := core.Unparen(as.Rhs[0]).(*ast.CompositeLit); ok && len(cl.Elts) == 0 {
+					reset = true
+				}
+				return true
+			})
+			rc.Check(reset, fmt.Sprintf("%s/option-loop#%d on-a-fresh-option-word", name, k), rs.Pos(), "the caller's option functions are applied to %s, which outlives the call, without `*%s = decoder.Option{}` in front: an option given to an earlier call (on the same Decoder, or left in a pooled context) stays in force", tgt, tgt)
+			return true
+		})
+	}
+	if nLoops < 4 || nParams < 6 {
+		rc.Unknown("json/option-functions", token.NoPos, "found %d loops that apply option functions and %d functions that take them (confirmed: 5 and 8)", nLoops, nParams)
+	}
+}
